@@ -1,0 +1,5 @@
+//go:build !verif
+
+package os
+
+func verifExit(s string) {}
